@@ -25,7 +25,7 @@ import (
 
 func isGroupOp(k string) bool {
 	switch k {
-	case "I", "D", "add", "sub", "neg", "copy", "other":
+	case "I", "D", "add", "sub", "neg", "copy", "load", "other":
 		return true
 	}
 	return false
@@ -33,7 +33,7 @@ func isGroupOp(k string) bool {
 
 func isEvent(n *node) bool {
 	switch n.kind {
-	case "I", "D", "add", "sub", "neg", "copy", "other", "recode", "table", "tstore", "call", "scan", "ret-table", "unsupported":
+	case "I", "D", "add", "sub", "neg", "copy", "load", "other", "recode", "table", "tstore", "call", "scan", "ret-table", "unsupported":
 		return true
 	case "if":
 		return hasEvents(n.body) || hasEvents(n.els)
@@ -85,13 +85,6 @@ func (n *node) result() *place {
 		return n.final
 	}
 	return n.dst
-}
-
-func (x *extractor) class(p *place) types.Object {
-	if p == nil || p.root == nil {
-		return nil
-	}
-	return x.find(p.root)
 }
 
 // simplify performs steps 1-3 (bottom-up).
@@ -305,7 +298,7 @@ func (x *extractor) mergeD(list []*node) []*node {
 		m := *n
 		m.body, m.els = x.mergeD(n.body), x.mergeD(n.els)
 		if m.kind == "D" && len(out) > 0 {
-			if p := out[len(out)-1]; p.kind == "D" && x.class(p.result()) == x.class(m.a) && x.class(p.result()) != nil {
+			if p := out[len(out)-1]; p.kind == "D" && p.dstAcc == m.aAcc && p.dstAcc != nil {
 				q := *p
 				q.k = p.k.add(m.k)
 				q.dst, q.final = m.dst, m.final
@@ -331,13 +324,8 @@ func (s identState) copy() identState {
 // written collects the accumulator classes modified in list.
 func (x *extractor) written(list []*node, into map[types.Object]bool) {
 	for _, n := range list {
-		if isGroupOp(n.kind) {
-			if c := x.class(n.result()); c != nil {
-				into[c] = true
-			}
-			if c := x.class(n.dst); c != nil {
-				into[c] = true
-			}
+		if isGroupOp(n.kind) && n.dstAcc != nil {
+			into[n.dstAcc] = true
 		}
 		if n.kind == "call" {
 			into[nil] = true
@@ -368,29 +356,19 @@ func (x *extractor) identPass(list []*node, st identState) []*node {
 	for _, n := range list {
 		switch n.kind {
 		case "I":
-			if c := x.class(n.dst); c != nil {
-				st[c] = true
+			if n.dstAcc != nil {
+				st[n.dstAcc] = true
 			}
 			out = append(out, n)
 		case "D":
-			c := x.class(n.a)
-			if c != nil && st[c] {
+			if n.aAcc != nil && st[n.aAcc] {
 				// 2^k * identity = identity
-				if r := x.class(n.result()); r != nil {
-					st[r] = true
-				}
 				continue
 			}
-			if r := x.class(n.result()); r != nil {
-				st[r] = false
-			}
 			out = append(out, n)
-		case "add", "sub", "neg", "copy", "other":
-			if r := x.class(n.result()); r != nil {
-				st[r] = false
-			}
-			if r := x.class(n.dst); r != nil {
-				st[r] = false
+		case "add", "sub", "neg", "copy", "load", "other":
+			if n.dstAcc != nil {
+				st[n.dstAcc] = false
 			}
 			out = append(out, n)
 		case "call":
@@ -418,7 +396,7 @@ func (x *extractor) identPass(list []*node, st identState) []*node {
 			x.written(n.body, w)
 			if n.kind == "loop" && (n.step == 1 || n.step == -1) && !n.excl {
 				if f := firstGroupOp(n.body); f != nil && f.kind == "D" {
-					if c := x.class(f.a); c != nil && st[c] {
+					if c := f.aAcc; c != nil && st[c] {
 						// peel the first iteration
 						peeled := x.substNodes(n.body, n.v, n.from)
 						out = append(out, x.identPass(peeled, st)...)
@@ -479,15 +457,17 @@ func (sk *Skeleton) newPrinter(canon func(string) string) *printer {
 	return &printer{x: sk.x, nm: newNamer(sk.x.sym), classes: map[types.Object]int{}, recs: map[*recoding]int{}, canon: canon}
 }
 
-func (p *printer) place(pl *place) string {
+func (p *printer) place(pl *place, acc types.Object) string {
 	if pl == nil {
 		return "?"
 	}
-	c := p.x.class(pl)
-	k, ok := p.classes[c]
+	if acc == nil {
+		acc = pl.root
+	}
+	k, ok := p.classes[acc]
 	if !ok {
 		k = len(p.classes)
-		p.classes[c] = k
+		p.classes[acc] = k
 	}
 	s := sprintf("A%d", k)
 	if pl.elem {
@@ -556,7 +536,7 @@ func (p *printer) addend(n *node) string {
 	if n.entry != nil {
 		return "L(" + p.table(n.entry.tbl, n.entry.term) + "," + p.digit(n.entry.arg) + ")"
 	}
-	return p.place(n.b)
+	return p.place(n.b, n.bAcc)
 }
 
 func (p *printer) cond(c *cond) string {
@@ -588,10 +568,10 @@ func (p *printer) nodes(list []*node) string {
 func (p *printer) node(n *node) string {
 	switch n.kind {
 	case "I":
-		return p.place(n.result()) + "=0"
+		return p.place(n.result(), n.dstAcc) + "=0"
 	case "D":
-		d, a := p.place(n.result()), p.place(n.a)
-		if d == a {
+		d, a := p.place(n.result(), n.dstAcc), p.place(n.a, n.aAcc)
+		if d == a || !n.result().elem {
 			return d + "*=2^" + p.nm.lin(n.k)
 		}
 		return d + "=" + a + "*2^" + p.nm.lin(n.k)
@@ -600,21 +580,21 @@ func (p *printer) node(n *node) string {
 		if n.kind == "sub" {
 			op = "-"
 		}
-		d := p.place(n.result())
-		var a string
+		d := p.place(n.result(), n.dstAcc)
+		a := "?"
 		if n.a != nil {
-			a = p.place(n.a)
-		} else {
-			a = "?"
+			a = p.place(n.a, n.aAcc)
 		}
-		if d == a {
+		if d == a || (!n.result().elem && (n.a == nil || !n.a.elem)) {
 			return d + op + "=" + p.addend(n)
 		}
 		return d + "=" + a + op + p.addend(n)
 	case "neg":
-		return p.place(n.result()) + "=-" + p.place(n.a)
+		return p.place(n.result(), n.dstAcc) + "=-" + p.place(n.a, n.aAcc)
 	case "copy":
-		return p.place(n.result()) + ":=" + p.place(n.a)
+		return p.place(n.result(), n.dstAcc) + ":=" + p.place(n.a, n.aAcc)
+	case "load":
+		return p.place(n.result(), n.dstAcc) + ":=L(" + p.table(n.entry.tbl, n.entry.term) + "," + p.digit(n.entry.arg) + ")"
 	case "recode":
 		return p.rec(n.rec) + ":=" + p.recDecl(n.rec)
 	case "table":
